@@ -16,6 +16,7 @@ type Error struct {
 
 // NewError creates a new error
 func NewError(r io.Reader, offset int, message string, a ...interface{}) *Error {
+	verifNewError(offset, message)
 	line, column, context := Position(r, offset)
 	if 0 < len(a) {
 		message = fmt.Sprintf(message, a...)
